@@ -523,6 +523,16 @@ const SOUP: &[char] = &[
     '{', '}', ';', '\0', '\x1b', '\x7f', 'é', '漢', '\u{301}', '😀', '\u{2028}', '\u{feff}', 'n', 't', 'e',
 ];
 
+/// Hand-picked hostile fragments (integer overflow, empty arguments, lone quotes, stacked
+/// operators, pattern chains, lambda edge cases, NUL) spliced into soups and mutations.
+const SNIPPETS: &[&str] = &[
+    "99999999999999999999", "-9223372036854775808", "9223372036854775807", "0x10", "\"\\x\"", "\"\\xg0\"",
+    "\"\\", "x.y.z", "a:b:c", "f(,)", "f(a,,b)", "f(a=1,a=2)", "f(a=1, b)", "|x,| x", "||", "|x, x| x", "x@y@z",
+    "@@", "'", "\"", "a\0b", "::..::", "x----", "x++++", "x^^", "~~~~x", "!!!!x", "x.m().n()", "x:y:z",
+    "P:P:P:x", "P:", ":x", "F((x))", "F(F(F(F(F(F(F(F(x))))))))", "A|B|C|A|B|C", "x & ~ y ~ z", "\u{feff}x",
+    "x\u{2028}y", "\"\\e\\0\\t\\r\\n\\\"\\\\\"", "k=v", "f(k=)", "f(=v)", "'a''b'", "\"a\"\"b\"", "x --y", "a.-b",
+];
+
 fn mutate(s: &str, rng: &mut Rng) -> String {
     let mut cs: Vec<char> = s.chars().collect();
     for _ in 0..1 + rng.below(3) {
@@ -580,11 +590,24 @@ fn gen_fuzz_input(lang: usize, rng: &mut Rng) -> String {
     let s = match rng.below(10) {
         0..=2 => {
             let len = rng.below(30) + rng.geometric(6) * 8;
-            (0..len.min(120)).map(|_| *rng.pick(SOUP)).collect()
+            let mut t = String::new();
+            for _ in 0..len.min(120) {
+                if rng.chance(1, 12) {
+                    t.push_str(*rng.pick::<&str>(SNIPPETS));
+                } else {
+                    t.push(*rng.pick(SOUP));
+                }
+            }
+            t
         }
         3..=6 => {
             let d = 1 + rng.below(3) as u32;
-            let e = gen_expr(lang, rng, d);
+            let mut e = gen_expr(lang, rng, d);
+            if rng.chance(1, 4) {
+                let bounds: Vec<usize> = (0..=e.len()).filter(|p| e.is_char_boundary(*p)).collect();
+                let pos = *rng.pick(&bounds);
+                e.insert_str(pos, *rng.pick::<&str>(SNIPPETS));
+            }
             mutate(&e, rng)
         }
         7..=8 => gen_nested(lang, rng),
@@ -775,31 +798,52 @@ fn main() {
         return;
     }
     jjv::run("C36", "C36", |ctx| {
-        // ---- fuzz stream: indices with i % 5 >= 3
+        // ---- fuzz stream: indices with i % 5 >= 3; every case is a batch of FUZZ_BATCH inputs in
+        // one language, recorded with the worst outcome of the batch
+        const FUZZ_BATCH: usize = 16;
         let mut fuzz_inputs: Vec<(usize, usize, String)> = vec![];
         let mut fuzz_index: Vec<usize> = vec![];
         for i in ctx.indices() {
             if i % 5 >= 3 {
                 let mut rng = ctx.rng(i);
                 let lang = rng.below(3) as usize;
-                let aset = rng.below(FUZZ_ALIASES.len() as u64) as usize;
-                fuzz_inputs.push((lang, aset, gen_fuzz_input(lang, &mut rng)));
+                for _ in 0..FUZZ_BATCH {
+                    let aset = rng.below(FUZZ_ALIASES.len() as u64) as usize;
+                    fuzz_inputs.push((lang, aset, gen_fuzz_input(lang, &mut rng)));
+                }
                 fuzz_index.push(i);
             }
         }
         let outcomes = run_fuzz(&fuzz_inputs, &ctx.scratch.clone());
         let mut fuzz_results: HashMap<usize, (usize, usize, u8)> = HashMap::new();
-        for (k, i) in fuzz_index.iter().enumerate() {
-            fuzz_results.insert(*i, (fuzz_inputs[k].0, fuzz_inputs[k].2.len(), outcomes[k]));
-            if outcomes[k] >= 2 {
-                ctx.note(format!(
-                    "fuzz input {} ({}; alias set {}): outcome {} text hex {}",
-                    i, LANGS[fuzz_inputs[k].0], fuzz_inputs[k].1, outcomes[k], hex(&fuzz_inputs[k].2)
-                ));
-                if outcomes[k] == 2 || outcomes[k] == 3 {
-                    ctx.panicked();
+        for (b, i) in fuzz_index.iter().enumerate() {
+            let mut worst = 0u8;
+            let mut accepted = 0;
+            let mut total_len = 0;
+            for k in b * FUZZ_BATCH..(b + 1) * FUZZ_BATCH {
+                let o = outcomes[k];
+                total_len += fuzz_inputs[k].2.len();
+                if o == 0 {
+                    accepted += 1;
+                }
+                // severity: panic/crash > timeout > err > ok
+                let sev = |x: u8| match x { 2 | 3 => 3, 4 => 2, 1 => 1, _ => 0 };
+                if sev(o) > sev(worst) {
+                    worst = o;
+                }
+                if o >= 2 {
+                    ctx.note(format!(
+                        "fuzz case {} input {} ({}; alias set {}): outcome {} text hex {}",
+                        i, k - b * FUZZ_BATCH, LANGS[fuzz_inputs[k].0], fuzz_inputs[k].1, o, hex(&fuzz_inputs[k].2)
+                    ));
+                    if o == 2 || o == 3 {
+                        ctx.panicked();
+                    }
                 }
             }
+            // outcome 0 = at least one input accepted and none failed badly; 1 = all rejected
+            let code = if worst >= 2 { worst } else if accepted > 0 { 0 } else { 1 };
+            fuzz_results.insert(*i, (fuzz_inputs[b * FUZZ_BATCH].0, total_len, code));
         }
         ctx.note("fuzzing part: seeded character soups, mutated valid expressions, nesting capped at 8, \
                   length capped at 200 bytes, 4 fixed alias sets incl. recursive and ill-formed ones; \
